@@ -83,14 +83,30 @@ def run_system(task):
                 return r
             disc.conditional_mutual_information, disc.shuffle_test = cmi, test
             extra = {"alpha_forward": 0.4, "alpha_backward": 0.01} if stress else {}
-            G = disc.discover_network(X, method=method, information=info, max_lag=L, n_shuffles=N_SHUFFLES, **extra)
+            # the same numbers in the layouts users actually pass: C order, Fortran order, a transposed (n, T) array, a
+            # column-sliced view, a DataFrame built from columns (whose .values is Fortran-ordered)
+            pres = ["c", "c", "f", "transposed", "col_view", "frame_cols"][seed % 6]
+            if pres == "f":
+                Xp = np.asfortranarray(X)
+            elif pres == "transposed":
+                Xp = np.ascontiguousarray(X.T).T
+            elif pres == "col_view":
+                big = np.zeros((X.shape[0], 2 * X.shape[1]))
+                big[:, ::2] = X
+                Xp = big[:, ::2]
+            elif pres == "frame_cols":
+                import pandas as pd
+                Xp = pd.DataFrame({f"X{j}": X[:, j].copy() for j in range(X.shape[1])})
+            else:
+                Xp = X
+            G = disc.discover_network(Xp, method=method, information=info, max_lag=L, n_shuffles=N_SHUFFLES, **extra)
     finally:
         sys.stdout = old
         disc.backward = orig_bwd
     names = list(G.nodes())
     edges_v = [(names.index(a), int(d["lag"]), float(d["cmi"])) for a, b, d in G.edges(data=True) if b == names[v]]
     planted = [e for e in edges_v if (e[0], e[1]) == (u, tau)]
-    res = {"stress": bool(stress), "info": info, "method": method, "seed": seed, "n": n, "L": L, "T": T, "u": u, "v": v, "tau": tau,
+    res = {"stress": bool(stress), "presentation": pres, "info": info, "method": method, "seed": seed, "n": n, "L": L, "T": T, "u": u, "v": v, "tau": tau,
            "edges_into_v": edges_v, "recovered": bool(planted),
            "top": bool(planted) and all(planted[0][2] >= e[2] for e in edges_v),
            "wrong_lag_or_direction": [e[:2] for e in edges_v if e[0] == u and e[1] != tau]}
@@ -201,6 +217,7 @@ def run(chk):
             chk.count(f"{key}.{r['method']}.systems")
             chk.count(f"{key}.recovered", int(r["recovered"]))
         chk.count(f"placement.n{r['n']}.L{r['L']}.tau{r['tau']}")
+        chk.count(f"presentation.{r['presentation']}")
         d = {k: r[k] for k in ("info", "method", "seed", "stress", "n", "L", "T", "u", "v", "tau", "edges_into_v", "recovered")}
         d["how"] = "planted_system(np.random.default_rng(seed), info, small) in harness/props/C05.py (small = quick tier and slow estimator), then discover_network(..., n_shuffles=50; stress: alpha_forward=0.4, alpha_backward=0.01)"
         if r["method"] in ("standard", "alternative"):
